@@ -230,3 +230,14 @@ Theorem C02_export_meta_spec :
                       logs tables b features = Ok (calls, om)).
 Proof. exact export_meta_spec. Qed.
 Print Assumptions C02_export_meta_spec.
+
+(* fluorescence:channel count of the source is carried over whatever subset
+   of the fluorescence features is exported; only a missing value is filled in
+   with the number of stored fl*_max features. *)
+Theorem C02_channel_count_carried :
+  forall (src : option Z) (nfl : Z),
+    (forall c, src = Some c -> rectify_chcount src nfl = Some c)
+    /\ (src = None -> 0 < nfl -> rectify_chcount src nfl = Some nfl)
+    /\ (src = None -> nfl <= 0 -> rectify_chcount src nfl = None).
+Proof. exact chcount_spec. Qed.
+Print Assumptions C02_channel_count_carried.
